@@ -53,8 +53,12 @@ def classify(e, dom):
 
 def job(args):
     """worker: (spec, console_width, opts, widths) -> {"cases": [(fn, args, impl, shape, sample)], "checks": [...], "notes": {...}}"""
-    spec, cwidth, opts, widths = args
+    spec, cwidth, opts, widths = args[:4]
+    shared = len(args) > 4 and args[4]
     console = L.make_console(cwidth)
+    obj = L.guarded(lambda: L.build(spec)) if shared else None
+    if isinstance(obj, str):
+        obj = None
     cases, checks, notes = [], [], {}
 
     def note(k):
@@ -67,8 +71,14 @@ def job(args):
     note("kind:" + spec[0])
     note("domain:" + dom)
     note("depth:%d" % L.depth(spec))
+    if obj is not None:
+        note("shared-object")
+        widths = list(widths)
+        widths = widths[len(widths) // 2:] + widths[: len(widths) // 2]  # not monotone: a stale cached width would show
     for w in widths:
-        out = L.real_text(console, spec, opts, w)
+        if obj is not None and w % 3 == 0:
+            L.real_measure(console, spec, w, obj=obj)  # interleave measuring and rendering on the same object
+        out = L.real_text(console, spec, opts, w, obj=obj)
         if out.startswith("err:"):
             impl = out
             note("render:" + out)
@@ -144,7 +154,7 @@ def run(ctx):
         for cwidth in (80, 20):
             jobs.append((spec, cwidth, {}, ws if cwidth == 80 else ws[: sm + 6]))
     # ---- B: seeded random trees, depth <= 4, all options; console width != render width in a third of the cases
-    n = 700 if quick else 22000
+    n = 3000 if quick else 60000
     for i in range(n):
         d = rng.choice([1, 2, 2, 3, 3, 4])
         spec = L.gen_tree(rng, d)
@@ -162,7 +172,7 @@ def run(ctx):
         ws = widths_for(rng, sm, quick, dense=12 if d <= 2 or not quick else 6)
         if quick:
             ws = ws if d <= 2 else rng.sample(ws, min(len(ws), 7))
-        jobs.append((spec, cwidth, opts, sorted(ws)))
+        jobs.append((spec, cwidth, opts, sorted(ws), rng.random() < 0.3))
     ctx.note("jobs", len(jobs))
     procs = max(1, min(14, (os.cpu_count() or 2) - 1))
     with multiprocessing.get_context("fork").Pool(procs) as pool:
@@ -211,7 +221,29 @@ def replay(ctx, case):
 
 
 MANIFEST = {
-    "text": "TODO",
-    "note": "TODO",
+    "text": "Lean 4 theorems (Props/C01.lean; no bound on nesting depth, number of children / rows / columns, text length or width) about the "
+    "executable composition model Model/Layout.lean: an inductive type of renderable trees (text | padding | panel | align | constrain | styled | "
+    "__rich__ cast | measure-less object | group | rule | bar | progress bar | table | columns | tree, every layout option) whose `render` "
+    "instantiates the oracles of the finished layers (Text.wrap C02, Text.render C05, frames C08, table algorithm C07, line shaping C13) with "
+    "itself.  `render_fits` / `rendered_lines_fit`: by structural induction over the tree, for every options and every width w at or above the "
+    "structural minimum `smin` (borders + padding + one cell, two with a double-width character, per innermost column), no line of "
+    "Console.render's Segment stream is wider than w; containers that crop (padding, panel, table, columns, tree) need nothing of their children, "
+    "the pass-through ones (group, styled, constrain, align, casts) use the induction hypothesis, text uses wrap/truncate (C02), tables use "
+    "width_fits (C07) restricted to columns free to wrap exactly as the property says; `known_progressbar_in_group_overflows` machine-checks "
+    "the one excluded built-in case (F23).  Tie: ~40k (quick) / ~800k (thorough) renderings of hand-written corner trees and seeded random "
+    "trees (depth <= 4, all options, ASCII/CJK/emoji/combining/zero-width content, newlines, tabs) compared character for character with "
+    "real Console.render (not Console.print), widths smin-2..smin+12 densely and up to 200, several console widths, objects re-rendered to "
+    "expose kept state; smin computed independently in Python and cross-checked; the property evaluated directly on rich's own output.",
+    "note": "Partial / assumed: (1) the domain `Dom` of the theorem excludes, in exposed position only: text with effective overflow='ignore' "
+    "(documented opt-out) or an explicit end other than the line feed, Constrain/Align narrower than the child's structural minimum, tables whose "
+    "columns are not free to wrap (width/min_width/no_wrap/active ratio) or whose explicit Table(width) exceeds the available width, "
+    "Columns(width=...), and a ProgressBar followed by a sibling in a group (known finding progressbar-no-newline, F23); all of these ARE in the "
+    "correspondence.  (2) Outside the model (driver answers `unmodelled`, counted): tables without columns, Columns(width=...), panel/rule "
+    "titles that are not one-line simple text or wider than console.width, ASCII-only / legacy-Windows consoles for tables, styles (only text "
+    "and segmentation are modelled), str renderables (markup/emoji/highlighter).  (3) `Text.Inv` of the wrapped-and-joined text is checked at "
+    "run time by the model instead of being proved preserved by every overflow/justify combination of wrap.  (4) smin reads Columns as one "
+    "column per item: `Columns([Text('')]*5)` at width 4 renders 5 blank cells (below that minimum, hence outside the claim).  "
+    "Trusted: Lean kernel, axioms propext/Classical.choice/Quot.sound, translator, correspondence harness; variant flags follow "
+    "props/c02.py, c07.py, c08.py.",
     "design_ref": "DESIGN.md section 7, C01/C07/C08/C09",
 }
